@@ -99,6 +99,33 @@ void *verif_calloc(size_t n, size_t m);
 void *verif_realloc(void *p, size_t n);
 char *verif_strdup(const char *s);
 
+/* Loop contracts attached through /repo's REPROC_VERIF_LOOP(name) hooks
+   (macro.h, guard REPROC_VERIF). Only harnesses built with
+   -DVERIF_LOOP_CONTRACTS (and goto-instrument --apply-loop-contracts) use them;
+   everywhere else, and in the native replay, the hooks expand to nothing. */
+#if defined(VERIF_LOOP_CONTRACTS) && !defined(VERIF_NATIVE)
+/* setup_input: the k-th write continues at data + written; nothing sleeps;
+   a failing write leaves the loop at once */
+#define REPROC_VERIF_LOOP_setup_input                                          \
+  __CPROVER_assigns(written, r, g.os_calls, g.wr_calls, g.wr_fd, g.wr_buf, g.wr_n, \
+                    g.wr_errno, g.wr_ret, g.may_block, g.err, g.faults,        \
+                    g.first_errno, g.stream_pos, g.in_fd)                      \
+  __CPROVER_loop_invariant(written <= size && g.stream_pos == written &&       \
+                           g.may_block == __CPROVER_loop_entry(g.may_block) && \
+                           g.faults == __CPROVER_loop_entry(g.faults) &&       \
+                           (written == 0 ? g.in_fd == -1 : g.in_fd == *pipe))                 \
+  __CPROVER_decreases(size - written)
+#endif
+#ifndef REPROC_VERIF_LOOP_setup_input
+#define REPROC_VERIF_LOOP_setup_input
+#endif
+#ifndef REPROC_VERIF_LOOP_close_all
+#define REPROC_VERIF_LOOP_close_all
+#endif
+#ifndef REPROC_VERIF_LOOP_drain
+#define REPROC_VERIF_LOOP_drain
+#endif
+
 /* the three standard FILE objects and one user FILE object, by identity */
 extern FILE verif_files[4];
 #undef stdin
